@@ -173,6 +173,14 @@ pub fn check(case: &Case, idx: u64, acc: &mut Acc) {
         }
         Case::Rem { a, b } => {
             let q = a.v / b.v;
+            // on a discontinuity of the truncated quotient (a/b within rounding of an integer without being
+            // one exactly) "a - b*trunc(a/b)" has two defensible floating-point values that differ by |b|:
+            // the exact remainder (fmod) and the rounded formula. Such pairs are out of domain.
+            let formula = a.v - b.v * q.trunc();
+            if ((a.v % b.v) - formula).abs() > 0.25 * b.v.abs() {
+                acc.skip();
+                return;
+            }
             if q < 0.0 && q.trunc() != q.floor() && !(a.names.is_empty() && b.names.is_empty()) {
                 acc.nontrivial();
                 acc.bump("negative non-integer quotient");
